@@ -41,7 +41,7 @@ def run_programs(c, programs, label):
     quick = c.quick
     for i, p in enumerate(programs):
         r = drv.ProgramRunner(c.work / ("%s%d" % (label, i)), p["size"], p["seed"], short=p["short"],
-                              confirm=2.0 if quick else 4.0, deadline=20.0 if quick else 45.0)
+                              confirm=2.0 if quick else 4.0, deadline=20.0 if quick else 45.0, faults=p.get("faults"))
         try:
             recs = r.run(p["prog"])
         finally:
@@ -63,7 +63,8 @@ def run_programs(c, programs, label):
         name = clause if isinstance(clause, str) else clause[0]
         key = "%s:%s" % (name, row[3])
         args = {k: v for k, v in rec.items() if k in ("n", "p", "chunks", "maxc", "count", "which", "res", "at", "k", "exc",
-                                                       "rejected", "same", "fault")}
+                                                       "rejected", "same", "fault", "pos", "code", "size", "confirm",
+                                                       "prefetch", "fo", "callback")}
         what = ("%s on a %d-byte file%s, call #%d %s %s -> %s: %s" %
                 (p.get("origin", label), p["size"], " (server returns short reads)" if p["short"] else "", row[2] - 1,
                  rec["op"], args, rec["out"], name))
